@@ -1,14 +1,13 @@
 # Stand-alone check of the walker stream (j5s source text -> sourcedef_j5pb.SourceFile), part of C07.
-# The Go half (harness, oracles, extractors) exists; the Lean half (J5V/Props/C07Walker.lean, the
-# model behind Driver/Walker.lean) is being written: `./check C07W` cannot pass end to end before that.
-# Go half alone: harness/walker-tools/run.py /repo <seed> <n>.
+# Its streams, extractors and property module are also folded into checks/C07.py (the registered check);
+# `./check C07W` runs this part alone (development). Go half alone: harness/walker-tools/run.py /repo <seed> <n>.
 CONFIG = {
     "lean_props": "J5V/Props/C07Walker.lean",
     "extract": ["walkerspec", "walkerschema"],
     "streams": [{
         "name": "walker.parse", "harness": "walkerh", "driver": "drv_walker",
         "env": {},
-        "n": {"quick": 16 * 6000, "thorough": 16 * 60000, "search": 16 * 4000},
+        "n": {"quick": 16 * 2000, "thorough": 16 * 30000, "search": 16 * 2000},
         "shards": {"quick": 16, "thorough": 16, "search": 16},
         "flush": True, "crash_signature": "walker-crash-or-timeout",
         "timeout_s": 3000, "driver_timeout_s": 3000,
@@ -32,7 +31,7 @@ CONFIG = {
     }, {
         "name": "walker.print", "harness": "walkerh", "driver": "drv_walker",
         "env": {"WALKER_STREAM": "print"},
-        "n": {"quick": 16 * 2500, "thorough": 16 * 25000, "search": 16 * 2000},
+        "n": {"quick": 16 * 1000, "thorough": 16 * 12000, "search": 16 * 1000},
         "shards": {"quick": 16, "thorough": 16, "search": 16},
         "flush": True, "crash_signature": "walker-crash-or-timeout",
         "timeout_s": 3000, "driver_timeout_s": 3000,
@@ -61,7 +60,7 @@ CONFIG = {
     "trusted_base": [
         "Lean 4.33.0 kernel; axioms at most propext, Classical.choice, Quot.sound",
         "the hand-written Lean model of internal/bcl/internal/walker/{c2,walk_context}.go, internal/bcl/internal/walker/schema/*.go and of "
-        "the parts of lib/j5reflect the walker calls (to be written from notes/walker-semantics.md) - validated only by the walker.parse "
+        "the parts of lib/j5reflect the walker calls (J5V/Walker, semantics written up in notes/walker-semantics.md) - validated only by the walker.parse "
         "correspondence stream on generated inputs (outcome, canonical dump of the message, position of the error)",
         "the BCL lexer / parser model J5V/Bcl/{Utf8,Lexer,Parser}.lean, which the driver uses to obtain the tree from the source text "
         "(validated by the bcl.parse stream of C11); unicode.IsSpace / IsDigit / IsLetter from the table file the harness writes",
@@ -73,7 +72,7 @@ CONFIG = {
         "strconv.ParseInt / ParseUint (transcribed) and strconv.ParseFloat (correct rounding to nearest-even assumed)",
         "protobuf-go: Mutable / Set / Has / WhichOneof / list and map semantics as summarised in PROTOCOL-walker.md §3 (populated = presence)",
         "stream walker.print: the definitions toBcl / toMsg / supported of J5V/Walker/Print.lean are hand-written and validated only by "
-        "this stream (no theorem about them yet); the s-expression decoder J5V/Compile/Sexp.lean (compile cluster), the generator AST, "
+        "this stream (C07W_print_parse proves walk(toBcl ast) = toMsg ast on the model; that the Go printer's text parses to toBcl ast is checked by this stream only); the s-expression decoder J5V/Compile/Sexp.lean (compile cluster), the generator AST, "
         "printer and encoder internal/verifh/j5sgen, the Go copy of the fragment test (walkerh/print_supported.go) and its rule table "
         "(the Rules schemas of j5.schema.v1, which the Lean side reads from the schema facts)",
         "extract/walker.go (go/ast reader of J5SchemaSpec; schema dump program), the Go harness internal/verifh/walkerh + "
